@@ -181,6 +181,16 @@ impl PoolImpl {
     async fn add_valid_cert(&mut self, cert: Cert) {
         let slot = cert.slot();
 
+        // a certificate created by the same vote may just have decided and pruned this slot
+        // (e.g. the notarization completing a pending finalization, followed by the
+        // fast-finalization certificate of the same vote): nothing is left to update,
+        // but the certificate is still handed to Votor for broadcasting
+        if slot < self.first_unpruned_slot() {
+            let event = PoolEvent::CertCreated(cert);
+            self.send_votor_event(event).await;
+            return;
+        }
+
         // actually add certificate
         trace!("adding cert to pool: {cert:?}");
         self.slot_state(slot).add_cert(cert.clone());
